@@ -1,6 +1,7 @@
 package checks
 
 import (
+	"fmt"
 	"verif/explore"
 	"verif/report"
 )
@@ -12,12 +13,17 @@ func C15(tier string) int {
 	rep.Assume("promoting an existing parent entity by Create through a child store, and deleting a plain parent through a plain child store, are not specified and not in the alphabet")
 	rep.Set("rule", "BFS to closure over create/update/patch/delete through parent, plain child and extended child store; oracle = complete image + FindById/LoadById/QueryIds (id-ordered and sorted)/IterateIds/IterateValidIds through all three stores + parent index reads")
 	// the child stores own constraints of their own (unique index on the plain child, set index on the extended child)
-	kc := newKitchen("parent+children, child-store indexes and link collection", kFeat{childIdx: true, places: true, childLinks: true})
-	kcCfg := explore.Config{Programs: explore.SingleOps(len(kc.Ops()))}
-	if tier == "quick" {
-		kcCfg.MaxDepth = 4
+	for _, extFirst := range []bool{true, false} {
+		if tier == "quick" && !extFirst {
+			continue // quick: the order in which the extended store (which claims every parent entity) comes first
+		}
+		kc := newKitchen(fmt.Sprintf("parent+children, child-store indexes and link collection, extended registered first=%v", extFirst), kFeat{childIdx: true, places: true, childLinks: true, extFirst: extFirst})
+		kcCfg := explore.Config{Programs: explore.SingleOps(len(kc.Ops()))}
+		if tier == "quick" {
+			kcCfg.MaxDepth = 4
+		}
+		runE1(rep, kc, kcCfg)
 	}
-	runE1(rep, kc, kcCfg)
 	k := newKitchen("parent+children+indexes+fk", kFeat{orgs: true})
 	n := len(k.Ops())
 	// two operations in one transaction (e.g. create through the child store, then update through the parent)
